@@ -22,14 +22,17 @@ ValidOutline(o) == /\ Len(o.x) >= 1 /\ Len(o.x) = Len(o.y)
 
 PCross(t) == [track |-> t.track, cross |-> t.cross]
 PInst(i) == [name |-> i.name, cell |-> i.cell, loc |-> i.loc, rh |-> i.rh, rv |-> i.rv]
-PLayout(c) == [name |-> c.name, outline |-> [x |-> c.outline.x, y |-> c.outline.y, metals |-> c.metals],
+\* a view carries a name of its own (optional field "lname"; by default the cell's name): it travels with the view, the cell
+\* keeps the cell's name, and references go by the cell's name
+LName(c) == IF "lname" \in DOMAIN c THEN c.lname ELSE c.name
+PLayout(c) == [name |-> LName(c), outline |-> [x |-> c.outline.x, y |-> c.outline.y, metals |-> c.metals],
                instances |-> MapS(PInst, c.insts),
                assignments |-> MapS(LAMBDA a : [net |-> a.net, at |-> PCross(a)], c.assigns),
                cuts |-> MapS(PCross, c.cuts)]
 \* a cell may carry an ABSTRACT view only (view = "abs": name, outline, metal count; no instances): it is still a node of
 \* the dependency graph, and must be exported before the cells that instantiate it
 IsAbs(c) == "view" \in DOMAIN c /\ c.view = "abs"
-PAbstract(c) == [name |-> c.name, nports |-> 0, outline |-> [x |-> c.outline.x, y |-> c.outline.y, metals |-> c.metals]]
+PAbstract(c) == [name |-> LName(c), nports |-> 0, outline |-> [x |-> c.outline.x, y |-> c.outline.y, metals |-> c.metals]]
 PCell(c) == IF IsAbs(c) THEN [name |-> c.name, layout |-> <<>>, abstract |-> <<PAbstract(c)>>]
             ELSE [name |-> c.name, layout |-> <<PLayout(c)>>, abstract |-> <<>>]
 
